@@ -57,6 +57,13 @@ var knames = [...]string{"k0", "k1", "k2", "k3"}
 func SymbolicKeyset(maxN int, kindsOf []int, withLegacy bool) *KS {
 	StubSerialization()
 	n := 1 + verifrt.Choice("n", maxN)
+	if n >= 3 && len(kindsOf) > 2 {
+		// three keys (thorough tier): the first and the last prefix kind only (TINK / RAW for
+		// every caller) and no legacy-primitive flag - the full product runs into millions of
+		// paths; every kind and the legacy flag are covered for one and two keys
+		kindsOf = []int{kindsOf[0], kindsOf[len(kindsOf)-1]}
+		withLegacy = false
+	}
 	ks := &KS{}
 	m := keyset.NewManager()
 	m.SetAnnotations(map[string]string{"verif": "on"})
